@@ -576,7 +576,7 @@ Proof.
   destruct (hdr_step_reference evs fr q CL Hd RQ IHF W GC) as (n & carry & RF & (fs & n' & carry' & R & _ & GP)).
   exists n, carry, fs, n', carry'. split; [exact RF|]. split; [exact R|]. split.
   - intro EH. rewrite EH in R. eapply ref_run_eh_carry. exact R.
-  - intros EH Hd'. destruct (GP Hd') as ([_ CA] & _ & _ & _). unfold next_cur in CA. rewrite EH in CA. apply CA.
+  - intros EH Hd'. destruct (GP Hd') as ([_ CA] & _). unfold next_cur in CA. rewrite EH in CA. apply CA.
     unfold is_hdr_frame in IHF. apply andb_prop in IHF. destruct IHF as [Z _]. apply negb_true_iff in Z. lia.
 Qed.
 
